@@ -20,6 +20,10 @@ def prop(pid, trace_module):
 def replay(run, path):
     """Re-execute a recorded history on the real code and let TLC judge it again."""
     rec = json.load(open(path))
+    if "history" not in rec or run.pid == "C20":
+        # table proofs (C03) and concurrent rounds (C20) cannot be re-executed call by call:
+        # the whole check is run again on the current tree
+        return PROPS[run.pid](run)
     run.build()
     trace, _ = run.exec("replay", replay=os.path.abspath(path), trace_name="trace-replay.ndjson")
     run.validate(TRACE_MODULE[run.pid], trace)
@@ -171,3 +175,89 @@ def c10(run):
         "data pushes and script classes are environment facts (bchd txscript.PushedData / GetScriptClass); for unparsable scripts the pushes before the error come from the harness' own tokenizer",
         "named deviations: an unparsable script may contribute nothing or its leading pushes; an empty push may be tested or skipped",
         "block scan contract: Lower (least fixpoint of relevance under exact-set semantics of the inserted items) <= reported <= Upper (what the final filter bits match)"])
+
+
+# --------------------------------------------------------------------------- C20
+@prop("C20", "Trace_BloomConc")
+def c20(run):
+    import glob
+    import subprocess
+    run.build(race=True)
+    # ---- static: lock-discipline model extracted from the current source
+    ext = os.path.join(run.dir, "extract")
+    p = subprocess.run(["go", "build", "-o", ext, "./extract"], cwd=pipeline.HARNESS, env=pipeline.GOENV, capture_output=True, text=True)
+    if p.returncode != 0:
+        raise pipeline.Infra("extractor does not build: " + p.stderr)
+    model = os.path.join(run.dir, "bloomconc.json")
+    p = subprocess.run([ext, os.path.join(pipeline.REPO, "bloom", "filter.go"), model], capture_output=True, text=True)
+    if p.returncode != 0:
+        raise pipeline.Infra("lock-discipline extraction failed (the filter no longer has the mutex + pointer shape the static model understands): " + p.stderr)
+    static = []
+    for k in (2, 3):
+        r = run.mc("BloomConc", "MC_BloomConc_%d.cfg" % k, env={"MODEL": model}, expect_fail=True)
+        if not r["ok"]:
+            inv = [l for l in r["out"].splitlines() if "is violated" in l]
+            if not inv:
+                raise pipeline.Infra("TLC failed on the extracted model:\n" + "\n".join(r["out"].splitlines()[-30:]))
+            static.append((k, inv[0].strip(), r["out"]))
+            break
+    # ---- dynamic: race detector + trace validation
+    racelog = os.path.join(run.dir, "race")
+    # exit code 66 = the race detector reported something (the reports are read below)
+    trace, _ = run.exec("C20", env={"GORACE": "log_path=%s halt_on_error=0" % racelog}, ok_codes=(0, 66))
+    reports, first = 0, ""
+    for f in glob.glob(racelog + "*"):
+        txt = open(f, errors="replace").read()
+        n = txt.count("WARNING: DATA RACE")
+        if n and not first:
+            first = txt[:1500]
+        reports += n
+    a, b = trace + ".a", trace + ".b"
+    maxh, nb = 0, 0
+    with open(a, "w") as fa, open(b, "w") as fb:
+        for line in open(trace):
+            hrec = json.loads(line)
+            maxh = max(maxh, hrec["h"])
+            if hrec["ev"] and hrec["ev"][0]["op"] == "LinRound":
+                fb.write(line)
+                nb += 1
+            else:
+                fa.write(line)
+        fa.write(json.dumps({"h": maxh + 1, "ev": [{"op": "RaceDetector", "reports": reports, "first": first[:1200]}]}) + "\n")
+    run.validate("Trace_BloomConc", a)
+    # linearization search
+    vout = b + ".lin"
+    if os.path.exists(vout):
+        os.remove(vout)
+    r = run.tlc("Lin_BloomConc", "Lin_BloomConc.cfg", env={"TRACE": b, "VOUT": vout})
+    if not r["ok"]:
+        raise pipeline.Infra("linearization search failed:\n" + "\n".join(r["out"].splitlines()[-30:]))
+    run.val_states += r["distinct"]
+    run.val_trans += r["generated"]
+    lin = set()
+    if os.path.exists(vout):
+        for line in open(vout):
+            rec = json.loads(line)
+            if isinstance(rec, str):
+                rec = json.loads(rec)
+            lin.add(rec["h"])
+    nlin = 0
+    for line in open(b):
+        hrec = json.loads(line)
+        nlin += 1
+        run.events += 1
+        run.histories += 1
+        if hrec["h"] not in lin:
+            run.verdicts.append(dict(trace=b, h=hrec["h"], i=1, v=["not-linearizable", "some sequential order of the calls", "none exists"],
+                                     event=hrec["ev"][0], history=hrec["ev"]))
+    pipeline.log("lin Lin_BloomConc: %d rounds, %d linearizable, %d states" % (nlin, len(lin & set(json.loads(l)["h"] for l in open(b))), r["distinct"]))
+    dynamic_bad = len(run.verdicts) > 0
+    if static and not dynamic_bad:
+        raise pipeline.Infra("the extracted lock-discipline model violates %s (K=%d) but no race / non-linearizable round / lost insertion was observed on the real code in this run: unconfirmed, no verdict" % (static[0][1], static[0][0]))
+    for k, inv, out in static:
+        print("STATIC-MODEL: %s (K=%d) on the model extracted from bloom/filter.go" % (inv, k))
+    return finish(run, assumptions=BLOOM_ASSUME + [
+        "data-race freedom is decided on the lock-discipline model extracted from bloom/filter.go (all interleavings, K=2 and 3) and observed with the Go race detector; the Go memory model itself is not specified",
+        "a static-model violation alone is not reported as a violation unless the real code shows a race, a non-linearizable round or a lost insertion in the same run",
+        "tickets come from one atomic counter taken immediately before / after each call"],
+        extra_cov={"race_detector_reports": reports, "static_model_violations": len(static), "linearization_rounds": nlin})
